@@ -997,6 +997,10 @@ class HTTPResponse(BaseHTTPResponse):
                 # For example, the GZ file header takes 10 bytes, we don't want to read
                 # it one byte at a time
                 data = self._raw_read(amt)
+                # This read may be the one that reaches the end of the body:
+                # the decoder has to be flushed then, or an incomplete stream
+                # (and any tail the decoder holds back) goes unnoticed.
+                flush_decoder = amt != 0 and not data
                 decoded_data = self._decode(data, decode_content, flush_decoder)
                 self._decoded_buffer.put(decoded_data)
             data = self._decoded_buffer.get(amt)
